@@ -607,9 +607,21 @@ def gen_query(rng, depth=0, ctes=None):
                 out_cols.setdefault(c, ty)
     grouped = r.random() < 0.25
     gcols = [g.col() for _ in range(r.randrange(1, 3))] if grouped else []
-    for i in range(r.randrange(1, 4)):
+    ordinal_keys = []  # GROUP BY <position>: keys that are constants keep their ordinal through qualification
+    by_ordinal = grouped and not sel and r.random() < 0.35
+    for i in range(r.randrange(1, 4) if not by_ordinal else r.randrange(2, 5)):
         name = "k%d" % i
-        if grouped:
+        if by_ordinal:
+            u = r.randrange(4)
+            if u == 0:
+                e, ty = r.choice(["1", "'a'", "2.5", "NULL"]), "INT"
+                ordinal_keys.append(i + 1)
+            elif u == 1:
+                e, ty = g.col(), "INT"
+                ordinal_keys.append(i + 1)
+            else:
+                e, ty = "%s(%s)" % (r.choice(["SUM", "MAX", "COUNT", "MIN"]), g.col("INT")), "INT"
+        elif grouped:
             if r.random() < 0.5:
                 e, ty = r.choice(gcols), "INT"
             else:
@@ -656,6 +668,9 @@ def gen_query(rng, depth=0, ctes=None):
         sql += " WHERE " + g.dnf()
     elif u < 0.8:
         sql += " WHERE " + g.cond(cd)
+    if by_ordinal:
+        gcols = [str(k_) for k_ in ordinal_keys]
+        grouped = bool(gcols)
     if grouped:
         sql += " GROUP BY " + ", ".join(gcols)
         if r.random() < 0.4:
